@@ -239,17 +239,17 @@ Definition inflight_toks (h : hc) : list tok :=
 Definition step (sh : state * hc) (t : list tok) : (state * hc) * list tok :=
   let '(s, h) := sh in
   match parse t with
-  | CmdOp o => let s' := apply_op s o in ((s', h), observe s o s')
+  | CmdOp o => let sh' := hstep sh (HOp o) in (sh', observe s o (fst sh'))
   | CmdSticky c sid => (sh, [match find_sticky s c sid with Some hd => tnat hd | None => TS "none" end])
   | CmdDump => (sh, dump s)
   | CmdNop => (sh, [])
   | CmdTable c => (sh, [TB (table_bytes s c)])
-  | CmdServer a k => ((s, hc_set_kind h a k), [])
-  | CmdHcConfig c cf => ((s, hc_set_config h c cf), [])
-  | CmdHcRemove c => let '(h', s') := hc_remove h s c in ((s', h'), [])
+  | CmdServer a k => (hstep sh (HServer a k), [])
+  | CmdHcConfig c cf => (hstep sh (HConfig c cf), [])
+  | CmdHcRemove c => (hstep sh (HRemove c), [])
   | CmdPump =>
-    if hc_made h then let '(h', s') := pump h s in ((s', h'), inflight_toks h')
-    else (sh, [])       (* the driver has no checker yet *)
+    let sh' := hstep sh HPump in
+    (sh', if hc_made h then inflight_toks (snd sh') else [])    (* no checker before the first configuration *)
   | CmdBad => (sh, [TS "badop"])
   end.
 
